@@ -223,3 +223,92 @@ Proof.
   exists s'; repeat split; try assumption.
   apply wf_tree_intro; [exact Hn | rewrite Ek; apply wf_tree_kids, Hwf].
 Qed.
+
+(* ------------------------------------------------------------------ a sequence of writes *)
+
+Definition write_nonneg (wr : Z * Z * Z) : Prop := let '(col, row, _) := wr in 0 <= col /\ 0 <= row.
+
+(* after any sequence of writes every buffer cell holds the last write addressed to it *)
+Lemma write_cells_spec ws : forall (s : surface Z), wf_node s -> Forall write_nonneg ws ->
+  exists s', write_cells s ws = Some s' /\ wf_node s' /\ s_w s' = s_w s /\ s_h s' = s_h s /\
+    forall i v, zget (s_buf s) i = Some v ->
+                zget (s_buf s') i = Some (spec_cell (s_w s) (s_h s) ws i v).
+Proof.
+  induction ws as [|[[col row] c] t IH]; intros s Hwf Hnn; cbn [write_cells spec_cell].
+  - exists s. split; [reflexivity|]. split; [exact Hwf|]. split; [reflexivity|]. split; [reflexivity|].
+    intros i v Hv; exact Hv.
+  - inversion Hnn as [|? ? Hhd Ht]; subst. unfold write_nonneg in Hhd. destruct Hhd as [Hc Hr].
+    destruct (write_cell_spec s col row c Hwf Hc Hr) as (s1 & E1 & Ew & Eh & _ & Hwf1 & Hget). rewrite E1.
+    destruct (IH s1 Hwf1 Ht) as (s2 & E2 & Hwf2 & Ew2 & Eh2 & Hget2).
+    exists s2. split; [exact E2|]. split; [exact Hwf2|]. split; [congruence|]. split; [congruence|].
+    intros i v Hv. rewrite Ew, Eh in Hget2.
+    destruct ((col <? s_w s) && (row <? s_h s) && (row * s_w s + col =? i)) eqn:Ehit.
+    + apply Hget2. rewrite Hget. replace (i =? row * s_w s + col) with true by lia.
+      replace ((col <? s_w s) && (row <? s_h s)) with true by lia. reflexivity.
+    + apply Hget2. rewrite Hget.
+      destruct ((col <? s_w s) && (row <? s_h s) && (i =? row * s_w s + col)) eqn:E3; [lia | exact Hv].
+Qed.
+
+Lemma sparse_from_increasing l : forall k prev, prev < k -> increasing prev (sparse_from k l) = true.
+Proof.
+  induction l as [|x t IH]; intros k prev H; cbn [sparse_from increasing]; [reflexivity|].
+  destruct (x =? 0); [apply IH; lia|]. cbn [increasing]. rewrite IH by lia. lia.
+Qed.
+
+Lemma sparse_from_in l : forall k i x, In (i, x) (sparse_from k l) ->
+  k <= i /\ zget l (i - k) = Some x /\ x <> 0.
+Proof.
+  induction l as [|a t IH]; intros k i x Hin; cbn [sparse_from] in Hin; [destruct Hin|].
+  destruct (a =? 0) eqn:Ea.
+  - destruct (IH _ _ _ Hin) as (H1 & H2 & H3). split; [lia|]. split; [|exact H3].
+    rewrite zget_cons_S by lia. replace (i - k - 1) with (i - (k + 1)) by lia. exact H2.
+  - destruct Hin as [Heq|Hin].
+    + injection Heq as <- <-. split; [lia|]. rewrite Z.sub_diag. split; [reflexivity | lia].
+    + destruct (IH _ _ _ Hin) as (H1 & H2 & H3). split; [lia|]. split; [|exact H3].
+      rewrite zget_cons_S by lia. replace (i - k - 1) with (i - (k + 1)) by lia. exact H2.
+Qed.
+
+Lemma sparse_lookup_from l : forall k i, k <= i ->
+  sparse_lookup (sparse_from k l) i = match zget l (i - k) with Some x => x | None => 0 end.
+Proof.
+  induction l as [|a t IH]; intros k i Hk; cbn [sparse_from sparse_lookup].
+  - unfold zget. destruct (i - k <? 0); [reflexivity|]. now destruct (Z.to_nat (i - k)).
+  - destruct (Z.eq_dec i k) as [->|Hne].
+    + rewrite Z.sub_diag, zget_cons_0. destruct (a =? 0) eqn:Ea.
+      * (* nothing stored at k; later entries have larger indices *)
+        assert (Hnone : forall l' k', k < k' -> sparse_lookup (sparse_from k' l') k = 0).
+        { induction l' as [|b t' IH']; intros k' Hk'; cbn [sparse_from sparse_lookup]; [reflexivity|].
+          destruct (b =? 0); [apply IH'; lia|]. cbn [sparse_lookup].
+          replace (k' =? k) with false by lia. apply IH'; lia. }
+        rewrite Hnone by lia. lia.
+      * cbn [sparse_lookup]. rewrite Z.eqb_refl. reflexivity.
+    + rewrite zget_cons_S by lia. replace (i - k - 1) with (i - (k + 1)) by lia.
+      destruct (a =? 0); [apply IH; lia|]. cbn [sparse_lookup].
+      replace (k =? i) with false by lia. apply IH; lia.
+Qed.
+
+(* the model's own observation passes the decidable addressing check of the differential run *)
+Lemma surface_run_ok w h ws :
+  0 <= w < 65536 -> 0 <= h < 65536 -> Forall write_nonneg ws ->
+  surface_ok ((w, h, ws), surface_run (w, h, ws)) = true.
+Proof.
+  intros Hw Hh Hnn. unfold surface_ok, surface_run.
+  pose proof (new_surface_wf 0 w h Hw Hh) as Hwf0.
+  destruct (write_cells_spec ws (new_surface 0 w h) Hwf0 Hnn) as (s & E & Hwf & Ew & Eh & Hget).
+  rewrite E. cbn [new_surface s_w s_h s_buf] in Ew, Eh, Hget.
+  destruct Hwf as (_ & _ & Hlen). rewrite Ew, Eh in Hlen.
+  assert (Hcell : forall i, 0 <= i < w * h -> zget (s_buf s) i = Some (spec_cell w h ws i 0)).
+  { intros i Hi. apply Hget. apply zget_zrepeat; lia. }
+  replace (0 =? 0) with true by reflexivity. rewrite Hlen, Z.eqb_refl. cbn [andb].
+  rewrite sparse_from_increasing by lia. cbn [andb].
+  apply andb_true_intro; split.
+  - apply forallb_forall. intros [i x] Hin.
+    destruct (sparse_from_in _ _ _ _ Hin) as (Hi & Hz & Hx). rewrite Z.sub_0_r in Hz.
+    pose proof (zget_some_range _ _ _ Hz) as Hr. rewrite Hlen in Hr.
+    rewrite (Hcell i Hr) in Hz. injection Hz as Hz. lia.
+  - apply forallb_forall. intros [[col row] c] Hin.
+    rewrite Forall_forall in Hnn. specialize (Hnn _ Hin). unfold write_nonneg in Hnn. destruct Hnn as [Hc Hr].
+    destruct ((col <? w) && (row <? h)) eqn:Ein; [|reflexivity].
+    rewrite sparse_lookup_from by nia. rewrite Z.sub_0_r.
+    rewrite Hcell by (apply addr_in_range; lia). lia.
+Qed.
